@@ -563,6 +563,16 @@ func (v *verifier) processSignature(ctx context.Context, sigBlob []byte, envelop
 			return processPluginResponse(capabilitiesToVerify, response, outcome)
 		}
 	}
+
+	if installedPlugin == nil {
+		// the signature does not name a verification plugin: extended critical
+		// attributes cannot be processed by notation itself
+		for _, attr := range outcome.EnvelopeContent.SignerInfo.SignedAttributes.ExtendedAttributes {
+			if attr.Critical {
+				return fmt.Errorf("extended critical attribute %v is not supported: it must be processed by a verification plugin", attr.Key)
+			}
+		}
+	}
 	return nil
 }
 
